@@ -43,13 +43,79 @@ Proof.
   cbn [app]. rewrite Ascii.eqb_refl. apply unq_body_escape.
 Qed.
 
+(** ---- address lists ---- *)
+
+Lemma index_byte_app_notin a c b :
+  contains_byte a c = false -> index_byte (a ++ c :: b) c = Some (length a).
+Proof.
+  unfold contains_byte. induction a as [|d a IH]; intros H; cbn [app index_byte length].
+  - now rewrite Ascii.eqb_refl.
+  - cbn [existsb] in H. apply orb_false_iff in H. destruct H as [H1 H2].
+    rewrite Ascii.eqb_sym in H1. rewrite H1, (IH H2). reflexivity.
+Qed.
+
+Lemma contains_byte_rev a c : contains_byte (rev a) c = contains_byte a c.
+Proof.
+  unfold contains_byte. induction a as [|d a IH]; [reflexivity|].
+  cbn [rev existsb]. rewrite existsb_app, IH. cbn [existsb]. rewrite orb_false_r. apply orb_comm.
+Qed.
+
+Lemma last_index_at local dom :
+  contains_byte dom AT_ = false -> last_index_byte (local ++ [AT_] ++ dom) AT_ = Some (length local).
+Proof.
+  intros H. unfold last_index_byte.
+  rewrite !rev_app_distr. cbn [rev app]. rewrite <- app_assoc. cbn [app].
+  rewrite index_byte_app_notin by (now rewrite contains_byte_rev).
+  rewrite rev_length, !app_length. cbn [length]. f_equal. lia.
+Qed.
+
+Lemma render_mail_addr_expected a :
+  dom_ok a = true -> render_mail_addr (mail_addr a) = expected_struct a.
+Proof.
+  destruct a as [[name local] dom]. cbn [dom_ok mail_addr]. intros H. apply negb_true_iff in H.
+  unfold render_mail_addr, expected_struct. rewrite (last_index_at local dom H).
+  replace (firstn (length local) (local ++ [AT_] ++ dom)) with local
+    by (rewrite firstn_app, Nat.sub_diag, firstn_all; cbn [firstn]; now rewrite app_nil_r).
+  replace (skipn (S (length local)) (local ++ [AT_] ++ dom)) with dom.
+  2:{ replace (S (length local)) with (length (local ++ [AT_])) by (rewrite app_length; cbn; lia).
+      rewrite app_assoc, skipn_app, Nat.sub_diag, skipn_all. reflexivity. }
+  now rewrite !quote_or_nil_imap_q.
+Qed.
+
+(** Whenever net/mail reads a header as the mailboxes l (display name, local
+    part, domain), the ENVELOPE address list is exactly the RFC 3501 structure
+    of l: for all header texts, names (commas, quotes, backslashes included),
+    local parts (also with "@" inside) and domains. *)
+Theorem address_list_agrees (mail_parse : str -> option (list (str * str))) s l :
+  s <> [] -> l <> [] -> forallb dom_ok l = true ->
+  mail_parse s = Some (map mail_addr l) ->
+  parse_address_list mail_parse s = Some (expected_list l).
+Proof.
+  intros Hs Hl Hd Hm. unfold parse_address_list.
+  destruct s as [|c s]; [congruence|]. rewrite Hm.
+  destruct l as [|a l]; [congruence|]. cbn [map].
+  unfold expected_list. do 3 f_equal.
+  change (render_mail_addr (mail_addr a) :: map render_mail_addr (map mail_addr l))
+    with (map render_mail_addr (map mail_addr (a :: l))).
+  rewrite map_map. f_equal. apply map_ext_in. intros x Hx.
+  apply render_mail_addr_expected. rewrite forallb_forall in Hd. now apply Hd.
+Qed.
+
+(** a header net/mail rejects is read as before *)
+Lemma address_list_fallback (mail_parse : str -> option (list (str * str))) s :
+  mail_parse s = None -> s <> [] -> parse_address_list mail_parse s = parse_fallback s.
+Proof. intros H N. unfold parse_address_list. destruct s; [congruence|]. now rewrite H. Qed.
+
 Definition w_name_comma : str := S_ "Doe, John".
 Definition w_name_qp : str := [ascii_of_nat 74; ascii_of_nat 111; SP; DQ; ascii_of_nat 88; DQ].  (* Jo DQUOTE X DQUOTE *)
 
-Lemma refuted_name_comma :
-  exists name local dom, classify_addr name = Some NameComma /\ addr_ok name local dom = false.
-Proof. exists w_name_comma, (S_ "john"), (S_ "example.com"). split; vm_compute; reflexivity. Qed.
+(** regression examples: what the comma splitting (the only reading before the
+    repair) made of quoted display names *)
+Example old_split_breaks_name_with_comma : fallback_ok w_name_comma (S_ "john") (S_ "example.com") = false.
+Proof. vm_compute. reflexivity. Qed.
 
-Lemma refuted_name_quoted_pair :
-  exists name local dom, classify_addr name = Some NameQuotedPair /\ addr_ok name local dom = false.
-Proof. exists w_name_qp, (S_ "john"), (S_ "example.com"). split; vm_compute; reflexivity. Qed.
+Example old_split_keeps_quoted_pair_backslashes : fallback_ok w_name_qp (S_ "john") (S_ "example.com") = false.
+Proof. vm_compute. reflexivity. Qed.
+
+Example fallback_plain_name_ok : fallback_ok (S_ "Bob Smith") (S_ "bob") (S_ "example.com") = true.
+Proof. vm_compute. reflexivity. Qed.
